@@ -404,13 +404,30 @@ def add_inputs(rng, spec, fnames, mounts, feat, extra_mounts=()):
             t['inputs'] = meta_inputs + [i for i in final if i.get('in_parameters')]
             for inp in t['inputs']:
                 inp.pop('_bare'), inp.pop('_target_key')
+            # pattern inputs: `~re` (same namespace) / `~~re` (all namespaces); the regex names the wanted tasks explicitly and allows any group
+            # prefix, so that matching on `name` (documentation) and on `group:name` (code) select the same tasks
+            if feat.get('patterns') and rng.random() < 0.18:
+                taken = {(j_, rel_, u_['cls']) for (j_, rel_, u_) in chosen}
+                same_ns = [(j_, rel_, u_) for (j_, rel_, u_) in cands if rel_ == () and (j_, rel_, u_['cls']) not in taken]
+                any_ns = [(j_, rel_, u_) for (j_, rel_, u_) in cands if (j_, rel_, u_['cls']) not in taken]
+                use_all = mi == 0 and rng.random() < 0.4 and any_ns
+                pool = any_ns if use_all else same_ns
+                if pool:
+                    picks = rng.sample(pool, min(len(pool), rng.choice([1, 2])))
+                    bares = sorted({slug_of(u_, pkg, modules[j_]).split(':')[-1] for (j_, _, u_) in picks})
+                    explicit_bares = {slug_of(u_, pkg, modules[j_]).split(':')[-1] for (j_, _, u_) in chosen}
+                    own = slug_of(t, pkg, m).split(':')[-1]
+                    if own not in bares and not (set(bares) & explicit_bares):
+                        import re as _re
+                        t['inputs'].append({'form': 'pattern_all' if use_all else 'pattern', 'ref': '(.*:)?(' + '|'.join(_re.escape(b) for b in bares) + ')'})
+                        t['inputs'].sort(key=lambda i: (bool(i.get('in_parameters')), i['form'] in ('pattern', 'pattern_all')))
             # optional input that is really absent
             if feat['optional_inputs'] and rng.random() < 0.1:
                 t['inputs'].append({'form': 'name', 'ref': 'absent_task_zz', 'optional': True, 'default': rng.choice([None, 5, 'd']),
                                     'access': 'registry', 'registry_key': 'absent_task_zz', 'in_parameters': rng.random() < 0.5})
                 t['inputs'].sort(key=lambda i: bool(i.get('in_parameters')))
                 for pos, inp in enumerate([i for i in t['inputs'] if not i.get('in_parameters')]):
-                    if inp['access'] == 'index':
+                    if inp.get('access') == 'index':
                         inp['index'] = pos
 
 
